@@ -439,7 +439,7 @@ func (c *Ctx) ruleInboundQoS2(id string) {
 			if _, ok := p.Exit.(*ssa.Return); !ok {
 				continue
 			}
-			e, known := p.CondVal("P0")
+			e, known := p.CondVal(fmt.Sprintf("P%d", cbParamIdx(cb, 0)))
 			var fw []*core.Call
 			for _, pc := range p.Calls() {
 				if c.isHandoffCall(pc.Call, hs) != nil {
@@ -489,7 +489,7 @@ func (c *Ctx) ruleInboundQoS2(id string) {
 				continue
 			}
 			pcid := complitField(encs[0].Args()[1], "MessageId")
-			if pcid == nil || !reachesParam(pcid, cb, 2) {
+			if pcid == nil || !reachesParam(pcid, cb, cbParamIdx(cb, 2)) {
 				provBad = "the PUBCOMP identifier does not derive from the received PUBREL (3rd parameter of the in-flight callback)"
 			}
 		}
